@@ -4,6 +4,12 @@
 // chains of length 1..4 x method annotations x server errors x validator error x
 // validator interface x action x scheme x format, through the real verifier with
 // a scripted validator; 3-line aggregation model + call-log clauses.
+//
+// Round 4 dimensions (all general, see caseT): the REST OF THE LEVEL (actions of authenticity / authentic timestamp /
+// expiry in {enforce, log}^3, written from each named base level), the REST OF THE SIGNATURE (any subset of those
+// other validations failing while only logged), the KIND of the validator's error (plain, context.Canceled,
+// context.DeadlineExceeded, typed, wrapped timeout) and the CALLER'S CONTEXT (done before Verify / ended from inside
+// the validator call, by a context the harness owns - no timers decide anything on the unchanged tree).
 package main
 
 import (
